@@ -10,6 +10,7 @@ private def parseMEv (b : Bytes) : Option MEv :=
   | [68] => some .dispatch       -- D
   | 80 :: n => (natOfDec? n).map .parse   -- P<n>
   | [81] => some .parseErr       -- Q
+  | 89 :: n => (natOfDec? n).map .parseTooLarge   -- Y<n>
   | [88] => some .removeFiles    -- X
   | [66] => some .resetBody      -- B
   | [84] => some .timeout        -- T
